@@ -59,24 +59,32 @@ BLt(s, a, b) == IF s /\ BIsNeg(a) # BIsNeg(b) THEN BIsNeg(a) ELSE BULt(a, b)
 BEq(a, b) == \A i \in 1..Len(a) : a[i] = b[i]
 BLe(s, a, b) == BLt(s, a, b) \/ BEq(a, b)
 
-\* ------------------------------------------------------------------ shift-subtract division (unsigned)
-RECURSIVE Shl1R(_, _, _, _)
-Shl1R(a, i, c, acc) ==
-  IF i > Len(a) THEN acc
-  ELSE LET t == 2 * a[i] + c IN Shl1R(a, i + 1, t \div 256, Append(acc, t % 256))
-Shl1(a, bit) == Shl1R(a, 1, bit, <<>>)
+\* ------------------------------------------------------------------ shift-subtract (restoring) division, unsigned
 BitOf(a, k) == (a[(k \div 8) + 1] \div P2(k % 8)) % 2            \* bit k, k = 0 is the least significant
 
-\* the running remainder needs one bit more than the divisor: r and bx carry an extra (zero) top limb
-RECURSIVE DivR(_, _, _, _, _)
-DivR(a, bx, k, q, r) ==
+\* One step on the running remainder r (< divisor bx; both carry one extra top limb so that 2r+1 fits):
+\* in a single pass over the limbs compute r1 = 2r + bit (c = carry of the doubling) and t = r1 - bx (bw = borrow).
+\* The final borrow says r1 < bx: then the quotient bit is 0 and r1 is kept, else it is 1 and t is kept.
+RECURSIVE StepR(_, _, _, _, _, _, _)
+StepR(r, bx, i, c, bw, r1, t) ==
+  IF i > Len(r) THEN (IF bw = 1 THEN <<r1, 0>> ELSE <<t, 1>>)
+  ELSE LET d == 2 * r[i] + c
+           l == d % 256
+           u == l - bx[i] - bw
+       IN StepR(r, bx, i + 1, d \div 256, IF u < 0 THEN 1 ELSE 0, Append(r1, l), Append(t, (u + 256) % 256))
+
+\* bits of the dividend from the top; quotient bits are gathered per limb (qa) and each finished limb is put in
+\* front of the more significant limbs already gathered (so the tuple is little-endian at the end)
+RECURSIVE DivR(_, _, _, _, _, _)
+DivR(a, bx, k, qa, q, r) ==
   IF k < 0 THEN <<q, r>>
-  ELSE LET r1 == Shl1(r, BitOf(a, k))
-       IN IF BULt(r1, bx) THEN DivR(a, bx, k - 1, Shl1(q, 0), r1)
-                          ELSE DivR(a, bx, k - 1, Shl1(q, 1), BSub(r1, bx))
+  ELSE LET st == StepR(r, bx, 1, BitOf(a, k), 0, <<>>, <<>>)
+           qb == 2 * qa + st[2]
+       IN IF k % 8 = 0 THEN DivR(a, bx, k - 1, 0, <<qb>> \o q, st[1])
+                       ELSE DivR(a, bx, k - 1, qb, q, st[1])
 \* <<quotient, remainder>> of the bit patterns read as naturals; b # 0
 BUDivMod(a, b) == LET n  == Len(a)
-                      qr == DivR(a, Append(b, 0), 8 * n - 1, BZero(n), BZero(n + 1))
+                      qr == DivR(a, Append(b, 0), 8 * n - 1, 0, <<>>, BZero(n + 1))
                   IN <<qr[1], SubSeq(qr[2], 1, n)>>
 
 \* signed: divide the magnitudes (|MinInt| = 2^(W-1) fits the unsigned reading), quotient truncated towards zero,
